@@ -714,6 +714,36 @@ def _buf_root(i):
                     inv_det = "%s: %s not shown at return on path %s" % (text, ", ".join(bad), " / ".join(st.trail[-8:]))
     if nb:
         agg["LIN:%s:INV" % f.name] = [inv_ok, FRef(f), f.line, inv_det, True]
+    # CUTSPEC: a successful mpt_buffer_cut(buf, off, len) leaves `_used0 - len` bytes (len != 0) resp. `off` bytes (len == 0: cut to
+    # the end), and returns that length: what follows the cut is kept, what was cut is gone
+    if f.name == "mpt_buffer_cut" and len(f.params) == 3:
+        cs_ok, cs_det, ncs = True, "", 0
+        for st, v in outs:
+            if not isinstance(v, Lin) or st.entails(-v - Lin.const(1)):
+                continue
+            pv = st.env.get(("v", fr.id, f.params[0]["id"]))
+            if not isinstance(pv, ObjPtr):
+                continue
+            used = st.env.get(("f", pv.obj, pv.prefix + "_used"))
+            u0 = st.env.get(("used0", pv.obj, pv.prefix))
+            offv = entry.env.get(("v", fr.id, f.params[1]["id"]))
+            lenv = entry.env.get(("v", fr.id, f.params[2]["id"]))
+            if not all(isinstance(x, Lin) for x in (used, u0, offv, lenv)):
+                continue
+            ncs += 1
+            good = (st.entails_eq(used, u0 - lenv) and not st.entails_eq(lenv, Lin.const(0))) or \
+                   (st.entails_eq(lenv, Lin.const(0)) and st.entails_eq(used, offv)) or \
+                   (st.entails_eq(used, u0 - lenv) and st.entails_eq(used, offv))
+            good = good and st.entails_eq(v, used)
+            if not good:
+                if st.joined:
+                    undecided.add("LIN:%s:CUTSPEC" % f.name)
+                elif cs_ok:
+                    cs_ok = False
+                    cs_det = "after a successful cut of len=%r at off=%r from %r used bytes the buffer has _used=%r and the call returns %r; expected %r (or off for len 0); path %s" % (
+                        lenv, offv, u0, used, v, u0 - lenv, " / ".join(st.trail[-8:]))
+        if ncs:
+            agg["LIN:%s:CUTSPEC" % f.name] = [cs_ok, FRef(f), f.line, cs_det, True]
     # USEDCOVER: what a successful call wrote into a payload lies inside the used length it leaves behind
     cov_ok, cov_det, ncov = True, "", 0
     for st, v in outs:
